@@ -391,7 +391,8 @@ def run(ctx, prog, res):
             if why == "no model":
                 r3.fail("C06.R3:%s:%s:uncovered" % (short(tid), mc.template(p)), "no representative value reaches a printer path of %s (shape %s): its output is not checked" % (short(tid), mc.template(p)), lib.where_of(mc.fns[tid]),
                         {"path_condition": [str(a) for a in p.pc][:12]})
-        r3.ok({"type": short(tid), "printer_paths": st["paths"], "paths_reached_by_a_parseable_shape": st["covered"], "paths_only_reached_by_unparseable_by_construction_shapes": len([1 for _, w in st["uncovered"] if w != "no model"]),
+        r3.ok({"type": short(tid), "printer_paths": st["paths"], "paths_reached_by_a_parseable_shape": st["covered"], "paths_only_reached_by_unparseable_by_construction_shapes": len([1 for _, w in st["uncovered"] if w.startswith("only")]),
+               "paths_with_contradictory_integer_conditions": len([1 for _, w in st["uncovered"] if w == "infeasible"]), "paths_only_satisfiable_outside_the_field_domain": len([1 for _, w in st["uncovered"] if w == "outside domain"]),
                "values": st["models"], "texts_matched": checked, "grammar_rules": rules or "(checked inside its parents)", "shapes_excluded_as_infeasible": st["infeasible_shape"]})
     r3.ok({"strings_matched_in_full": total_strings, "feasibility_rows_hits": mc.row_hits, "context_rule_hits": {"%s.%s" % (short(k[0]), k[1]): v for k, v in mc.field_rule_hits.items()},
            "grammar_child_sequences_inspected": mc.row_stats, "symbolic_states": mc.sp.states, "domains": mc.dom.notes, "printer_panic_paths": sorted({w for _, w in mc.sp.panics}), "seconds": round(time.time() - t0, 1)})
@@ -421,7 +422,7 @@ def run(ctx, prog, res):
         PYO = "opening_hours_py::PyOpeningHours::"
         f = prog.require_fn(PYO + "__str__")
         sh = flow.shape(f, 0)
-        r4.check(sh == "::to_string(p1.inner)", {"fn": f.id, "returns": sh}, "C06.R4:str", "__str__ returns %s" % sh, lib.where_of(f))
+        r4.check(flow.displays_only(f, 0), {"fn": f.id, "returns": "Display text of self.inner"}, "C06.R4:str", "__str__ returns %s" % sh, lib.where_of(f))
         f = prog.require_fn(PYO + "__repr__")
         sh = flow.shape(f, 0)
         r4.check(re.search(r"array\(Argument::new_debug\(::to_string\(p1\.inner\)\)\)", sh) is not None, {"fn": f.id, "returns": sh}, "C06.R4:repr", "__repr__ returns %s" % sh, lib.where_of(f))
